@@ -102,9 +102,10 @@ func load(dir string) *pkgInfo {
 		}
 		conf := types.Config{Importer: importer.ForCompiler(fset, "source", nil)}
 		pi.info = &types.Info{
-			Types: map[ast.Expr]types.TypeAndValue{},
-			Uses:  map[*ast.Ident]types.Object{},
-			Defs:  map[*ast.Ident]types.Object{},
+			Types:      map[ast.Expr]types.TypeAndValue{},
+			Uses:       map[*ast.Ident]types.Object{},
+			Defs:       map[*ast.Ident]types.Object{},
+			Selections: map[*ast.SelectorExpr]*types.Selection{},
 		}
 		pkg, err := conf.Check(name, fset, files, pi.info)
 		if err != nil {
@@ -132,6 +133,21 @@ func (pi *pkgInfo) calleeName(call *ast.CallExpr) string {
 		return f.Name
 	}
 	return exprText(call.Fun)
+}
+
+// qualifiedCallee: like calleeName, but a method call is named by the method's receiver type
+// rather than by the variable it is called on.
+func (pi *pkgInfo) qualifiedCallee(call *ast.CallExpr) string {
+	if f, ok := call.Fun.(*ast.SelectorExpr); ok {
+		if sel, ok := pi.info.Selections[f]; ok && sel.Kind() == types.MethodVal {
+			if fn, ok := sel.Obj().(*types.Func); ok {
+				if sig, ok := fn.Type().(*types.Signature); ok && sig.Recv() != nil {
+					return "(" + types.TypeString(sig.Recv().Type(), func(p *types.Package) string { return p.Path() }) + ")." + fn.Name()
+				}
+			}
+		}
+	}
+	return pi.calleeName(call)
 }
 
 func isNumeric(t types.Type) bool {
@@ -303,6 +319,7 @@ func main() {
 			if fd.Body == nil {
 				continue
 			}
+			locals := lib.localPointers(fd.Body, recvObj, recvIsPtr)
 			// walk with closure depth tracking
 			var walk func(n ast.Node, closure *ast.FuncLit)
 			walk = func(n ast.Node, closure *ast.FuncLit) {
@@ -327,19 +344,29 @@ func main() {
 												cr = "pointer"
 											}
 										}
-										ptrCalls = append(ptrCalls, pcall{name, cr, s.Name(), exprText(sel.X)})
+										on := exprText(sel.X)
+										if id, ok := sel.X.(*ast.Ident); ok && recvObj != nil && lib.info.Uses[id] == recvObj {
+											on = "self"
+										}
+										callee := s.Name()
+										if pt, ok := sig.Recv().Type().(*types.Pointer); ok {
+											if nt, ok := pt.Elem().(*types.Named); ok {
+												callee = "(*" + nt.Obj().Name() + ")." + s.Name()
+											}
+										}
+										ptrCalls = append(ptrCalls, pcall{name, cr, callee, on})
 									}
 								}
 							}
 						}
 					case *ast.AssignStmt:
 						for _, lhs := range x.Lhs {
-							lib.classifyWrite(name, lhs, x.Tok, recvObj, recvIsPtr, ptrParams, pkgVars, closure, fd, &writes, func(f, l, c string) {
+							lib.classifyWrite(name, lhs, x.Tok, recvObj, recvIsPtr, ptrParams, pkgVars, closure, fd, locals, func(f, l, c string) {
 								writes = append(writes, write{f, l, c})
 							})
 						}
 					case *ast.IncDecStmt:
-						lib.classifyWrite(name, x.X, token.ASSIGN, recvObj, recvIsPtr, ptrParams, pkgVars, closure, fd, &writes, func(f, l, c string) {
+						lib.classifyWrite(name, x.X, token.ASSIGN, recvObj, recvIsPtr, ptrParams, pkgVars, closure, fd, locals, func(f, l, c string) {
 							writes = append(writes, write{f, l, c})
 						})
 					}
@@ -376,9 +403,25 @@ func main() {
 	}
 	b.WriteString("]\n\n")
 
+	b.WriteString("/-- Exported methods with a pointer receiver (callers may share the pointee between goroutines and calls). -/\n")
+	b.WriteString("def exportedPointerMethods : List (String × String) := [")
+	firstE := true
+	for _, r := range recvs {
+		if r.kind == "pointer" && ast.IsExported(r.method) {
+			if !firstE {
+				b.WriteString(", ")
+			}
+			firstE = false
+			fmt.Fprintf(&b, "(%s, %s)", q(r.typ), q(r.method))
+		}
+	}
+	b.WriteString("]\n\n")
 	b.WriteString("/-- Assignments that may reach memory outliving the call: function, left-hand side, category\n")
-	b.WriteString("(pkgvar: package-level variable; recvfield: through a pointer receiver; paramelem: through a pointer/slice/map\n")
-	b.WriteString("parameter; captured: a variable captured by a closure; ptrfield: a field through a local pointer). -/\n")
+	b.WriteString("(pkgvar: a package-level variable; recvfield: a field of the pointer receiver itself; recvdeep: something reached\n")
+	b.WriteString("through a field of the pointer receiver; paramelem: through a pointer/slice/map parameter; captured: a variable\n")
+	b.WriteString("captured by a function literal; freshfield: through a local pointer that only ever holds objects created in the\n")
+	b.WriteString("same call; ptrfield: through any other local pointer). Paths are normalised: the root is recv / param / new, every\n")
+	b.WriteString("index is []. -/\n")
 	b.WriteString("def sharedWrites : List (String × String × String) := [")
 	for i, w := range writes {
 		if i > 0 {
@@ -388,7 +431,7 @@ func main() {
 	}
 	b.WriteString("]\n\n")
 
-	b.WriteString("/-- Call sites of pointer-receiver methods of the package: caller, caller's receiver kind, method, receiver expression. -/\n")
+	b.WriteString("/-- Call sites of pointer-receiver methods of the package: caller, caller's receiver kind, callee, receiver expression\n(`self` = the caller's own receiver). -/\n")
 	b.WriteString("def pointerMethodCalls : List (String × String × String × String) := [")
 	for i, c := range ptrCalls {
 		if i > 0 {
@@ -402,6 +445,7 @@ func main() {
 	b.WriteString("outlive a call or be shared between goroutines without passing through an argument. -/\n")
 	b.WriteString("def packageVars : List (String × String) := [")
 	first := true
+	var kinds []string
 	for _, name := range lib.pkg.Scope().Names() {
 		if v, ok := lib.pkg.Scope().Lookup(name).(*types.Var); ok {
 			if !first {
@@ -409,9 +453,19 @@ func main() {
 			}
 			first = false
 			fmt.Fprintf(&b, "\n  (%s, %s)", q(name), q(types.TypeString(v.Type(), func(p *types.Package) string { return p.Name() })))
+			k := "opaque"
+			if plainType(v.Type(), lib.pkg, 0) {
+				k = "plain"
+			}
+			kinds = append(kinds, fmt.Sprintf("(%s, %s)", q(name), q(k)))
 		}
 	}
 	b.WriteString("]\n\n")
+	b.WriteString("/-- Kind of every package-level variable: `plain` = numbers, strings, booleans, errors and arrays / slices / maps /\n")
+	b.WriteString("structs of the package built from those (data: it can only change through an assignment, and those are listed in\n")
+	b.WriteString("`sharedWrites`); `opaque` = anything that can hold hidden state (pointers, functions, channels, interfaces, types\n")
+	b.WriteString("of other packages such as sync.Map, sync.Once, big.Float). -/\n")
+	fmt.Fprintf(&b, "def packageVarKinds : List (String × String) := [%s]\n\n", strings.Join(kinds, ", "))
 	b.WriteString("end Spg.Generated.Facts\n")
 	writeFile(out, "Facts.lean", b.String())
 
@@ -444,8 +498,8 @@ func main() {
 					if call, ok := n.(*ast.CallExpr); ok {
 						var p, e, s []site
 						cli.classifyCall(fn, funcName(fd), call, &cliOutputs, &p, &e, &s)
-						if c := cli.calleeName(call); strings.Contains(c, "/") || (strings.Contains(c, ".") && !strings.Contains(c, " ") && !strings.HasPrefix(c, "builtin.")) {
-							cliCalls[funcName(fd)+" -> "+c] = true
+						if c := cli.qualifiedCallee(call); strings.Contains(c, "/") || (strings.Contains(c, ".") && !strings.Contains(c, " ") && !strings.HasPrefix(c, "builtin.")) {
+							cliCalls[c] = true
 						}
 					}
 					return true
@@ -614,8 +668,16 @@ func main() {
 		cc = append(cc, k)
 	}
 	sort.Strings(cc)
-	b.WriteString("/-- Every call from an opgen function into another package or a method (caller -> callee). -/\n")
-	fmt.Fprintf(&b, "def cliCalls : List String := %s\n\n", qlist(cc))
+	b.WriteString("/-- Every function of another package and every method that opgen calls (a set: sorted, without repetition;\nmethods are named by their receiver type). -/\n")
+	b.WriteString("def cliCalls : List (String × String) := [")
+	for i, c := range cc {
+		if i > 0 {
+			b.WriteString(", ")
+		}
+		k := strings.LastIndex(c, ".")
+		fmt.Fprintf(&b, "(%s, %s)", q(c[:k]), q(c[k+1:]))
+	}
+	b.WriteString("]\n\n")
 	b.WriteString("end Spg.Generated\n")
 	writeFile(out, "Cli.lean", b.String())
 }
@@ -676,9 +738,123 @@ func rootIdent(e ast.Expr) (*ast.Ident, bool) {
 	}
 }
 
+// pathText renders the access path of an assignment target with its root replaced by `root` and
+// every index expression by [] (so that names of receivers and locals do not matter).
+func pathText(e ast.Expr, root string) string {
+	switch x := e.(type) {
+	case *ast.Ident:
+		return root
+	case *ast.SelectorExpr:
+		return pathText(x.X, root) + "." + x.Sel.Name
+	case *ast.IndexExpr:
+		return pathText(x.X, root) + "[]"
+	case *ast.StarExpr:
+		return "*" + pathText(x.X, root)
+	case *ast.ParenExpr:
+		return pathText(x.X, root)
+	}
+	return "?"
+}
+
+// depth of the access path below its root: r.f is 1, r.f[i] and r.f.g are 2, …
+func pathDepth(e ast.Expr) int {
+	switch x := e.(type) {
+	case *ast.SelectorExpr:
+		return 1 + pathDepth(x.X)
+	case *ast.IndexExpr:
+		return 1 + pathDepth(x.X)
+	case *ast.StarExpr:
+		return 1 + pathDepth(x.X)
+	case *ast.ParenExpr:
+		return pathDepth(x.X)
+	}
+	return 0
+}
+
+// localPointers classifies the pointer-typed local variables of a function body by what is ever
+// assigned to them: "fresh" (only &T{…} or new(T): an object created in this call) or
+// "recv:<path>" (only the address of something reached through the pointer receiver).
+func (pi *pkgInfo) localPointers(body *ast.BlockStmt, recvObj types.Object, recvIsPtr bool) map[types.Object]string {
+	res := map[types.Object]string{}
+	note := func(id *ast.Ident, rhs ast.Expr) {
+		obj := pi.info.Defs[id]
+		if obj == nil {
+			obj = pi.info.Uses[id]
+		}
+		if obj == nil {
+			return
+		}
+		if _, isPtr := obj.Type().Underlying().(*types.Pointer); !isPtr {
+			return
+		}
+		cls := "unknown"
+		switch r := rhs.(type) {
+		case *ast.UnaryExpr:
+			if r.Op == token.AND {
+				if _, ok := r.X.(*ast.CompositeLit); ok {
+					cls = "fresh"
+				} else if root, _ := rootIdent(r.X); root != nil && recvIsPtr && recvObj != nil && pi.info.Uses[root] == recvObj {
+					cls = "recv:" + pathText(r.X, "recv")
+				}
+			}
+		case *ast.CallExpr:
+			if f, ok := r.Fun.(*ast.Ident); ok && f.Name == "new" {
+				if _, ok := pi.info.Uses[f].(*types.Builtin); ok {
+					cls = "fresh"
+				}
+			}
+		}
+		if old, seen := res[obj]; seen && old != cls {
+			cls = "unknown"
+		}
+		res[obj] = cls
+	}
+	ast.Inspect(body, func(n ast.Node) bool {
+		switch x := n.(type) {
+		case *ast.AssignStmt:
+			if len(x.Lhs) == len(x.Rhs) {
+				for i, l := range x.Lhs {
+					if id, ok := l.(*ast.Ident); ok {
+						note(id, x.Rhs[i])
+					}
+				}
+			} else {
+				for _, l := range x.Lhs {
+					if id, ok := l.(*ast.Ident); ok {
+						note(id, nil)
+					}
+				}
+			}
+		case *ast.ValueSpec:
+			for i, id := range x.Names {
+				if i < len(x.Values) {
+					note(id, x.Values[i])
+				}
+			}
+		case *ast.RangeStmt:
+			for _, e := range []ast.Expr{x.Key, x.Value} {
+				if id, ok := e.(*ast.Ident); ok {
+					note(id, nil)
+				}
+			}
+		}
+		return true
+	})
+	return res
+}
+
+// classifyWrite: where can an assignment's effect outlive the statement?
+//
+//	pkgvar     a package-level variable (or anything reached through one)
+//	recvfield  a field of the pointer receiver itself (recv.f = …)
+//	recvdeep   something reached THROUGH a field of the pointer receiver (recv.f[i] = …, p.g = … with p = &recv.f[i])
+//	paramelem  through a pointer/slice/map parameter
+//	captured   a variable captured by a function literal
+//	freshfield through a local pointer that only ever holds objects created in this call
+//	ptrfield   through any other local pointer
 func (pi *pkgInfo) classifyWrite(fn string, lhs ast.Expr, tok token.Token, recvObj types.Object, recvIsPtr bool,
 	ptrParams map[types.Object]bool, pkgVars map[types.Object]bool, closure *ast.FuncLit, fd *ast.FuncDecl,
-	_ interface{}, add func(f, l, c string)) {
+	locals map[types.Object]string, add func(f, l, c string)) {
 	id, through := rootIdent(lhs)
 	if id == nil || id.Name == "_" {
 		return
@@ -692,20 +868,64 @@ func (pi *pkgInfo) classifyWrite(fn string, lhs ast.Expr, tok token.Token, recvO
 	}
 	switch {
 	case pkgVars[obj]:
-		add(fn, exprText(lhs), "pkgvar")
+		add(fn, pathText(lhs, id.Name), "pkgvar")
 	case obj == recvObj && recvIsPtr && through:
-		add(fn, exprText(lhs), "recvfield")
+		if pathDepth(lhs) == 1 {
+			add(fn, pathText(lhs, "recv"), "recvfield")
+		} else {
+			add(fn, pathText(lhs, "recv"), "recvdeep")
+		}
 	case ptrParams[obj] && through:
-		add(fn, exprText(lhs), "paramelem")
+		add(fn, pathText(lhs, "param"), "paramelem")
 	case closure != nil && tok != token.DEFINE && !(obj.Pos() >= closure.Pos() && obj.Pos() <= closure.End()):
-		add(fn, exprText(lhs), "captured")
+		add(fn, pathText(lhs, id.Name), "captured")
 	case through:
 		if v, ok := obj.(*types.Var); ok {
 			if _, isPtr := v.Type().Underlying().(*types.Pointer); isPtr {
-				add(fn, exprText(lhs), "ptrfield")
+				switch c := locals[obj]; {
+				case c == "fresh":
+					add(fn, pathText(lhs, "new"), "freshfield")
+				case strings.HasPrefix(c, "recv:"):
+					add(fn, pathText(lhs, "("+c[5:]+")"), "recvdeep")
+				default:
+					add(fn, pathText(lhs, id.Name), "ptrfield")
+				}
 			}
 		}
 	}
+}
+
+// plainType: data without hidden state (see packageVarKinds).
+func plainType(t types.Type, pkg *types.Package, depth int) bool {
+	if depth > 6 {
+		return false
+	}
+	if nt, ok := t.(*types.Named); ok {
+		if nt.Obj().Pkg() == nil { // error
+			return nt.Obj().Name() == "error"
+		}
+		if nt.Obj().Pkg() != pkg {
+			return false
+		}
+	}
+	switch u := t.Underlying().(type) {
+	case *types.Basic:
+		return u.Kind() != types.UnsafePointer
+	case *types.Slice:
+		return plainType(u.Elem(), pkg, depth+1)
+	case *types.Array:
+		return plainType(u.Elem(), pkg, depth+1)
+	case *types.Map:
+		return plainType(u.Key(), pkg, depth+1) && plainType(u.Elem(), pkg, depth+1)
+	case *types.Struct:
+		for i := 0; i < u.NumFields(); i++ {
+			if !plainType(u.Field(i).Type(), pkg, depth+1) {
+				return false
+			}
+		}
+		return true
+	}
+	return false
 }
 
 func writeFile(dir, name, content string) {
